@@ -53,7 +53,7 @@ class MeanAggregator(Aggregator):
             raise TypeError("All elements of `y` must be numpy.ndarray or numpy.ma.MaskedArray.")
 
         self._np = np
-        if all(isinstance(pred, np.ma.MaskedArray) for pred in y):
+        if any(isinstance(pred, np.ma.MaskedArray) for pred in y):
             self._np = np.ma
 
         # Stack predictions for aggregation
